@@ -3,7 +3,8 @@
    On the tree as it is every history-level clause has a counterexample (FIFO entries, unresolvable symlinks, symlink
    entries, failed Add); they are stated as _refuted with witnesses that the check replays on the real code.  What holds
    for all states is stated beside them; the history-level statements for histories without those ingredients are
-   partial: established by evaluation (C18_example) and by the differential runs, not by a universally quantified proof. *)
+   PARTIAL: proved for every history of two finite families (side conditions as explicit predicates, see KqInv.v), and
+   beyond the bound established by the differential runs only. *)
 From Coq Require Import NArith List String Bool.
 From stdpp Require Import gmap.
 From Fsn Require Import KqModel KqInv.
@@ -22,7 +23,8 @@ Theorem C18_create_marks_returned_name : forall s p k s',
   sendCreateIfNew s p k = (s', None) -> closed s = false -> exists p', p' ∈ t_seen (T s').
 Proof. exact create_marks_returned_name. Qed.
 
-(* history level, tree as it is *)
+(* history level, tree as it is; keys: create_once fifo-entry + dangling-symlink-entry, preexisting_silent fifo-entry,
+   recreate symlink-entry + rename-then-recreate-in-burst, dir_removed symlink-entry, names dangling-symlink-entry *)
 Theorem C18_create_once_refuted :
   (exists h, creates "d/p" (run cfg_repo h st_init) = 2%nat /\ fails "create-once" cfg_repo h = true)
   /\ (exists h, creates "d/a" (run cfg_repo h st_init) = 2%nat /\ creates "d/b" (run cfg_repo h st_init) = 0%nat
@@ -32,12 +34,23 @@ Theorem C18_preexisting_silent_refuted :
   exists h, creates "d/p" (run cfg_repo h st_init) = 1%nat /\ fails "preexisting-silent" cfg_repo h = true.
 Proof. exact preexisting_silent_refuted. Qed.
 Theorem C18_recreate_refuted :
-  exists h, evs (run cfg_repo h st_init) = [] /\ fails "recreate" cfg_repo h = true /\ fails "remove-missed" cfg_repo h = true.
+  (exists h, evs (run cfg_repo h st_init) = [] /\ fails "recreate" cfg_repo h = true /\ fails "remove-missed" cfg_repo h = true)
+  /\ (exists h, creates "d/l" (run cfg_repo h st_init) = 0%nat /\ creates "d/c" (run cfg_repo h st_init) = 1%nat /\ fails "create-missed" cfg_repo h = true).
 Proof. exact recreate_refuted. Qed.
 Theorem C18_dir_removed_refuted :
   exists h, rev (evs (run cfg_repo h st_init)) = [ {| e_name := "d/l"; e_op := Remove |}; {| e_name := "d/f"; e_op := Remove |}; {| e_name := "d"; e_op := Remove |} ]
             /\ fails "remove-missed" cfg_repo h = true.
 Proof. exact dir_removed_refuted. Qed.
+
+(* history level, positive, PARTIAL (bounded): every clause (create-once, preexisting-silent, create-missed, recreate,
+   remove-missed, change-missed, names-user-spelling) holds on the model's trace of every history prologue ++ w with w
+   any 4 steps of [alphabet], and of every burst prologue ++ hold :: w ++ [release; x] with w any 3 steps and x any step of
+   [alpha_b], provided no name is created in the burst after having been renamed away (key rename-then-recreate-in-burst) *)
+Theorem C18_history_clauses_bounded_plain_partial : forall w, In w (words alphabet 4) -> c18_ok (prologue ++ w) = true.
+Proof. exact c18_clauses_bounded_plain_partial. Qed.
+Theorem C18_history_clauses_bounded_burst_partial : forall w x,
+  In (w, x) burst_family -> no_rename_recreate [] w = true -> c18_ok (prologue ++ SHold :: w ++ [SRelease; x]) = true.
+Proof. exact c18_clauses_bounded_burst_partial. Qed.
 
 (* names: link name substitution *)
 Theorem C18_names_user_spelling : forall name link mask,
@@ -62,6 +75,8 @@ Print Assumptions C18_create_once_refuted.
 Print Assumptions C18_preexisting_silent_refuted.
 Print Assumptions C18_recreate_refuted.
 Print Assumptions C18_dir_removed_refuted.
+Print Assumptions C18_history_clauses_bounded_plain_partial.
+Print Assumptions C18_history_clauses_bounded_burst_partial.
 Print Assumptions C18_names_user_spelling.
 Print Assumptions C18_names_user_spelling_refuted.
 Print Assumptions C18_kq_inv_handle.
